@@ -34,10 +34,12 @@ type cfg struct {
 	Name    string
 	Relist  bool // the consumer also performs one relist (list snapshot, reconcile, watcher.reset) at a scheduler-chosen moment
 	Hist    []mut
-	Paced   bool                       // one change at a time (quiescence in between)
-	Faults  map[int]fakeapi.WatchFault // by watch call number
-	Mode    string
-	Bound   int
+	Paced   bool // one change at a time (quiescence in between)
+	// SlowConsumer: the consumer takes 2 ms per event, so a burst queues up in the watch path (its buffers hold 100)
+	SlowConsumer bool
+	Faults       map[int]fakeapi.WatchFault // by watch call number
+	Mode         string
+	Bound        int
 }
 
 type inst struct {
@@ -90,6 +92,9 @@ func (in *inst) run() {
 			case evt := <-w.Events():
 				o := evt.Resource()
 				in.received = append(in.received, hx.EventString(evt))
+				if c.SlowConsumer {
+					time.Sleep(2 * time.Millisecond) // a controller that needs a moment per event: the watch path buffers meanwhile
+				}
 				// what the controller's cache does with it
 				cur, ok := in.cache[hx.Key(o)]
 				switch evt.Type() {
@@ -297,6 +302,10 @@ func Property() runner.Property {
 			out = append(out, scenario(cfg{Name: "ok/h120", Hist: history(120), Paced: true, Mode: "D0"}))
 			out = append(out, scenario(cfg{Name: "close@60/h120", Hist: history(120), Paced: true, Faults: map[int]fakeapi.WatchFault{1: W("close", 60)}, Mode: "D0"}))
 			out = append(out, scenario(cfg{Name: "close@100,error,close@20/h120/from950", StartRV: 950, Hist: history(120), Paced: true, Faults: map[int]fakeapi.WatchFault{1: W("close", 100), 2: W("error", 0), 3: W("close", 20)}, Mode: "D0"}))
+			// 30 changes at once and a consumer slower than the stream - far below the buffers of the watch path: nothing
+			// is lost, also across a close in the middle
+			out = append(out, scenario(cfg{Name: "burst30/slow-consumer", Hist: history(30), SlowConsumer: true, Mode: "S2", Bound: 1}))
+			out = append(out, scenario(cfg{Name: "burst30/slow-consumer/close@15", Hist: history(30), SlowConsumer: true, Faults: map[int]fakeapi.WatchFault{1: W("close", 15)}, Mode: "S2", Bound: 1}))
 			// versions cross 9 -> 10 (a resume version compared as a string goes wrong there)
 			for _, pos := range []int{1, 2, 3} {
 				out = append(out, scenario(cfg{Name: fmt.Sprintf("digit-boundary/close@%d/h4", pos), StartRV: 8, Hist: history(4), Faults: map[int]fakeapi.WatchFault{1: W("close", pos)}, Mode: "S2", Bound: d}))
